@@ -84,7 +84,8 @@ def main(pid):
             ("exh", dict(universe="types", typedepth=1, target=2, members=1, rich=True, sample=4000 if thorough else 150)),
             ("exh", dict(universe="inst", target=40, maxitems=2, sample=None if thorough else 200))]
     allcases = []
-    plan += [("scenario", dict(family="members")), ("scenario", dict(family="serializable")), ("scenario", dict(family="enums"))]
+    plan += [("scenario", dict(family="members")), ("scenario", dict(family="serializable")), ("scenario", dict(family="enums")),
+             ("scenario", dict(family="special"))]
     for kind, kw in plan:
         if kind == "sim":
             cs, r = cases.simulate(seed=rep.seed, **kw)
